@@ -94,6 +94,12 @@ def run(res, tier, seed):
     from props.graphfacts import (dead_chain_programs, entry_by_jump_programs, exit_in_function_programs,
                                   fold_grid_programs, slow_convergence_program)
     srcs += fold_grid_programs()
+    # every class of `\u` escape in string and character literals: surrogates (no Unicode scalar value),
+    # the ends of the planes, too few / non-hex digits
+    for esc in ("\\ud800", "\\udfff", "\\ud83d\\ude00", "\\uDBFF", "\\u0000", "\\uffff", "\\uFFFE", "\\ud7ff", "\\ue000",
+                "\\u12", "\\uzzzz", "\\u", "\\x41", "\\0", "\\777"):
+        srcs.append(f'main:\n    li a7, 10\n    ecall\n.data\ns: .asciz "a{esc}b"\n')
+        srcs.append(f"main:\n    li a0, '{esc}'\n    li a7, 10\n    ecall\n")
     srcs += entry_by_jump_programs(rng) + dead_chain_programs(rng) + exit_in_function_programs(rng) + \
         [slow_convergence_program(rng)]
     # Inputs on which the liveness iteration *as documented* has no reachable fixed point are the
@@ -295,6 +301,15 @@ def run(res, tier, seed):
             if out[0] and out[0][0].startswith(("PANIC", "HANG", "CRASH")) and first is None:
                 first = {"what": f"large input ({kind} x {base * mult}): {out[0][0][:80]}",
                          "generator": f"{kind} x {base * mult}"}
+        # wall-clock time on a machine that is doing other things as well: before a growth rate is
+        # believed, every size is measured twice more and the fastest run of each counts
+        if any(a > 0.2 and b > 8 * a for a, b in zip(times, times[1:])):
+            for _ in range(2):
+                for q, mult in enumerate((1, 2, 4)):
+                    t0 = time.time()
+                    run_lines_isolated(RVH_RELEASE, [pipe_req("run", [("m.s", big(kind, base * mult))])], timeout=120, chunk=1)
+                    times[q] = min(times[q], time.time() - t0)
+            stats["scaling_remeasured"] = stats.get("scaling_remeasured", 0) + 1
         for a, b in zip(times, times[1:]):
             if a > 0.2 and b > 8 * a and first is None:
                 first = {"what": f"running time grows faster than a small polynomial on '{kind}': "
